@@ -13,8 +13,8 @@ ASSUMPTIONS = ["reference vf/ref/ec.py + hashlib", "BSM signing is modelled as d
 NSHARDS = {"quick": 32, "thorough": 64}
 BUDGET_S = {"quick": 200, "thorough": 1800}
 MIN_HITS = {
-    'quick': {"sign": 256, "prefix_nonzero": 202, "len>=253": 80, "len>=65536": 32, "neg": 7120, "uncompressed": 122},
-    'thorough': {"sign": 15360, "prefix_nonzero": 10260, "len>=253": 5502, "len>=65536": 230, "neg": 245367, "uncompressed": 6178},
+    'quick': {"sign": 256, "prefix_nonzero": 202, "len>=253": 82, "len>=65536": 35, "neg": 9732, "uncompressed": 122},
+    'thorough': {"sign": 57753, "prefix_nonzero": 38383, "len>=253": 20520, "len>=65536": 244, "neg": 2216073, "uncompressed": 23074},
 }
 EDGE = [1, 2, 3, (ec.N - 1) // 2, (ec.N + 1) // 2, ec.N - 2, ec.N - 1]
 MAGIC = b"Bitcoin Signed Message:\n"
@@ -114,6 +114,10 @@ def judge(ctx, case):
     x = int(case["x"], 16)
     comp = case["compressed"]
     m = bytes.fromhex(case["msg"])
+    if case.get("seed", 0) % 5 == 1 and not case.get("framed"):
+        m = [b"\xef\xbb\xbf", b"\n", b" ", b"\x00", b"\r\n"][case["seed"] % 25 // 5] + m + [b"", b"\n", b"\r\n", b" ", b"\x00"][case["seed"] % 125 // 25]
+        case = dict(case, msg=m.hex())
+        ctx.hit("message_with_text_like_edges")
     if case.get("framed"):
         # the message IS a complete, well-formed signed-message preimage of another message
         m = frame(m)
@@ -143,9 +147,19 @@ def judge(ctx, case):
         ctx.hit("key_object_used_before_switching_form")
     if case["nonce"]:
         req["k"] = case["nonce"]
+    neg_first = case["seed"] % 2 == 0
+    if neg_first:
+        req["skip_verify"] = True
     s = ctx.call(req)
     ctx.ev()
     netcls = "mainnet prefix" if p == 0 else "non-mainnet prefix"
+    if neg_first and "ok" in s:
+        # the very first check of these signature bytes on this thread is a NEGATIVE one (another message), the genuine check follows
+        ctx.hit("negative_check_first")
+        w0 = ctx.call({"op": "bsm_verify", "msg": (m + b"?").hex(), "compact": s["ok"]["compact"], "addr_hash": h160.hex(), "prefix": p})
+        ctx.ev()
+        if "ok" in w0 and "bsm_verify" in w0["ok"] and any_true(w0["ok"]):
+            ctx.viol("BSM verification succeeds for a different message", {"resp": str(w0["ok"])[:300]})
     if "ok" not in s:
         ctx.viol("BSM signing failed for valid arguments", {"resp": str(s)[:200]})
         return
@@ -162,9 +176,9 @@ def judge(ctx, case):
     ctx.ev()
     if o.get("key_address_hash", {}).get("ok") != h160.hex():
         ctx.viol("the address the library derives from the signing key object is not HASH160 of the key in its current form%s" % (" (key object used in the other form before)" if req.get("warm") else ""), {"got": str(o.get("key_address_hash"))[:100], "exp": h160.hex()})
-    if o.get("verify_own_address", {}).get("ok") is not True:
+    if not neg_first and o.get("verify_own_address", {}).get("ok") is not True:
         ctx.viol("BSM verification fails against the address derived from the signing key object itself%s" % (" (key object used in the other form before)" if req.get("warm") else ""), {"resp": str(o.get("verify_own_address"))[:200]})
-    if o["verify_direct"].get("ok") is not True:
+    if not neg_first and o["verify_direct"].get("ok") is not True:
         ctx.viol("BSM verification (in-memory signature) fails against the signer's own address (%s)" % netcls, {"resp": str(o["verify_direct"])[:200]})
     v = ctx.call({"op": "bsm_verify", "msg": case["msg"], "compact": o["compact"], "addr_hash": h160.hex(), "prefix": p})
     ctx.ev()
@@ -187,6 +201,17 @@ def judge(ctx, case):
             ctx.viol("BSM verification succeeds for %s" % what, {"resp": str(w["ok"])[:300]})
 
     neg("a different message", (m + b"!").hex(), o["compact"], h160.hex())
+    # the genuine message again right after a failed attempt with the SAME signature bytes (state keyed on the signature alone)
+    v2 = ctx.call({"op": "bsm_verify", "msg": case["msg"], "compact": o["compact"], "addr_hash": h160.hex(), "prefix": p})
+    ctx.ev()
+    if "ok" not in v2 or "bsm_verify" not in v2["ok"] or not all_true(v2["ok"]):
+        ctx.viol("BSM verification of a genuine signature fails right after the same signature was checked against another message", {"resp": str(v2.get("ok", v2))[:300]})
+    # text-transport neighbours of the message: byte order mark, line ends, blanks, NUL in front of / behind it, and removed from it
+    for pre_, what_ in ((b"\xef\xbb\xbf", "a UTF-8 byte order mark"), (b"\n", "a line feed"), (b" ", "a blank"), (b"\x00", "a NUL byte"), (b"\xff\xfe", "a UTF-16 byte order mark")):
+        neg("the message preceded by %s" % what_, (pre_ + m).hex(), o["compact"], h160.hex())
+        neg("the message followed by %s" % what_, (m + pre_).hex(), o["compact"], h160.hex())
+        if m.startswith(pre_) and len(m) > len(pre_):
+            neg("the message without its leading %s" % what_, m[len(pre_) :].hex(), o["compact"], h160.hex())
     # framing is not idempotent: the framed form of the message, and the message with one framing layer removed, are different messages
     neg("the message wrapped in one more layer of magic/length framing", frame(m).hex(), o["compact"], h160.hex())
     inner = unframe(m)
